@@ -128,3 +128,16 @@ Print Assumptions C16_duration_float_floor.
 Print Assumptions C16_stl_bytes.
 Print Assumptions C16_stl_bytes_monotone.
 Print Assumptions C16_stl_bytes_shape.
+(* EBU STL, the float path (audit item): stl.go computes the hour, minute and second fields of a timecode as
+   int(math.Floor(d.Hours())) etc., where time.Duration.Hours() is float64(d / Hour) + float64(d % Hour) / 3.6e12 (one rounded
+   division, one rounded addition), and tests d.Hours() < 10 for the leading zero; only the frame field is integer
+   arithmetic.  Model/StlFloat.v transcribes that path with Kit/Float64.v (Flocq binary64); on the whole range a timecode
+   can hold (0 <= t < 256 h) it equals the integer model Dur.stl_fields used everywhere else, so every STL theorem stated
+   on stl_fields / format_stl / format_stl_bytes is a theorem about the float computation. *)
+From Astisub Require Import Model.StlFloat Proofs.StlFloatProofs.
+Theorem C16_stl_float_fields : forall t fps, stl_range t -> stl_fields_float t fps = stl_fields t fps.
+Proof. exact stl_fields_float_correct. Qed.
+Theorem C16_stl_float_leading_zero : forall c t, stl_unit c -> stl_range t -> lt10_float c t = (Z.quot t c <? 10).
+Proof. exact lt10_float_correct. Qed.
+Print Assumptions C16_stl_float_fields.
+Print Assumptions C16_stl_float_leading_zero.
